@@ -205,9 +205,17 @@ def c10() -> int:
             configs.append((2, 5, {"v0": v0, "v1": "f1", "s0": s0, "b0": b0, "bs": b0, "r0": r0}))
         for v1 in ("none", "f2", "both"):
             configs.append((2, 5, {"v0": "f1", "v1": v1, "s0": "f2", "b0": "f1", "bs": "f2", "r0": "f2"}))
+        # scenarios that declare exactly ONE fleet: outsiders are vehicles without fleet (the human driver has only its private membership)
+        for v0, v1, s0 in itertools.product(("none", "f1"), ("none", "f1"), ("none", "f1")):
+            configs.append((2, 5, {"v0": v0, "v1": v1, "s0": s0, "b0": s0, "bs": s0, "r0": "f1", "declared": ["f1"]}))
     else:
         for v0, v1, s0, b0, bs, r0 in itertools.product(M, M, M, M, M, ("f1", "f2")):
             configs.append((2, 5, {"v0": v0, "v1": v1, "s0": s0, "b0": b0, "bs": bs, "r0": r0}))
+        for v0, v1, s0, b0, bs in itertools.product(("none", "f1"), repeat=5):
+            configs.append((2, 5, {"v0": v0, "v1": v1, "s0": s0, "b0": b0, "bs": bs, "r0": "f1", "declared": ["f1"]}))
+    from .enum_member import c10_enum
+
+    c10_enum(c)
     results = pmap(_c10_config, rotate(configs, seed()))
     cov = Counter()
     for r in results:
@@ -215,13 +223,13 @@ def c10() -> int:
         for sig, msg, hist, world in r["violations"]:
             c.add(Finding("C10", sig, f"[{world}] {msg} (history: {hist})", {"engine": "fsx", "world_spec": ["hivemc.w_mem", "make", r["kw"]], "monitor_spec": ["hivemc.bundles", "c10", {}], "history": hist}))
     c.coverage.update({
-        "states": sum(r["states"] for r in results),
-        "transitions": sum(r["transitions"] for r in results),
+        "states": c.coverage.get("states", 0) + sum(r["states"] for r in results),
+        "transitions": c.coverage.get("transitions", 0) + sum(r["transitions"] for r in results),
         "traces_validated_against_impl": sum(r["replays"] for r in results),
         "membership_configurations": len(configs),
         "bounds": {"K": 2, "H": 5},
         "coverage_matrix": {k: v for k, v in sorted(cov.items()) if k.startswith("c10:")},
-        "samples": [{"world": r["kw"], "history": r["samples"][0]} for r in results[:3] if r["samples"]],
+        "samples": c.coverage.get("samples", []) + [{"world": r["kw"], "history": r["samples"][0]} for r in results[:3] if r["samples"]],
     })
     for cell in ("c10:activity_with_target:DispatchTrip", "c10:activity_with_target:ChargingStation", "c10:activity_with_target:ReserveBase",
                  "c10:activity_with_target:ChargingBase", "c10:builtin:Dispatcher:DispatchTrip", "c10:builtin:ChargingFleetManager:DispatchStation",
